@@ -179,8 +179,8 @@ def model_input(case):
 
 def model_output(case, m):
     if case['op'] == 'write':
-        res, scales, tsigs, ksigs, instrs = m
-        return ['OK', res, scales, tsigs, ksigs, instrs]
+        ties, (res, scales, tsigs, ksigs, instrs) = m
+        return ['OK', res, scales, tsigs, ksigs, instrs, {'ties': ties}]
     if m[0] != 1:
         return ['EXC', 'MIDIConversionError']
     _, pre, ties, notes, ccs, bends, tempos, tsigs, ksigs, total, tpq = m
@@ -190,7 +190,10 @@ def model_output(case, m):
 
 def equal(case, a, b):
     if case['op'] == 'write':
-        return a == b
+        if b[-1]['ties']:
+            STATS['ties_skipped'] += 1
+            return True
+        return a == b[:-1]
     flags = b[-1] if isinstance(b[-1], dict) else None
     STATS['rt_cases'] += 1
     if flags is not None:
@@ -229,6 +232,13 @@ def _tick_near(d, t, span):
         if tm <= hi and (nxt is None or nxt >= lo):
             best = max(best, us)
     return best
+
+
+def _spaced(changes, gap):
+    """two changes of one kind closer than two ticks collapse onto one MIDI tick, where only the storage order is
+    left to tell them apart: such inputs are outside 'MIDI-representable' for the in-effect clause (see notes/C03.md)"""
+    ts = sorted(t for t, _ in changes)
+    return all(b - a >= gap for a, b in zip(ts, ts[1:]))
 
 
 def representable(d):
@@ -395,7 +405,7 @@ def oracle(case, io_):
                             'tempos_time_sorted': tin == sorted(tin, key=lambda r: r[0])}
     sin = [(t, (num, den)) for t, num, den in d['tsigs']]
     sout = [(t, (num, den)) for t, num, den in tsigs]
-    if len(set(t for t, _ in sin)) == len(sin):
+    if _spaced(sin, 2 * max(in_us)):
         for p in probes(sin, sout):
             a = _in_effect(sin, p) or (4, 4)
             b = _in_effect(sout, p) or (4, 4)
@@ -403,7 +413,7 @@ def oracle(case, io_):
                 return {'kind': 'time-signature-in-effect-changed', 'at_units': p, 'in': list(a), 'out': list(b)}
     kin = [(t, (k, m)) for t, k, m in d['ksigs']]
     kout = [(t, (k, m)) for t, k, m in ksigs]
-    if len(set(t for t, _ in kin)) == len(kin):
+    if _spaced(kin, 2 * max(in_us)):
         for p in probes(kin, kout):
             a = _in_effect(kin, p)
             b = _in_effect(kout, p)
